@@ -8,6 +8,9 @@ rendered assertions name bare (`Color.RED`) are collected - collector found by b
 interpreted over nested values - for every assertion and fed to the emitted from-imports; the
 public-name import lists attributes of the module only and never the alias; the exception types to
 import are accumulated over all test cases.  That the tests pass is not decided.
+Further clauses (added later): The filter that removes non-holding assertions is called unconditionally before
+export. C18.exc-import evaluates the writer's own reference / import expressions over a top-level, a nested
+and a function-local exception class.
 """
 
 from __future__ import annotations
